@@ -164,24 +164,38 @@ def run_exec_case(case):
         return obs
 
 
+def case_steps(case):
+    """[['import', [stmts]] | ['eval', expr]] — `steps` when the case interleaves pyimport steps and
+    !py evaluations, else one pyimport step (if any) followed by the expressions."""
+    if case.get('steps'):
+        return case['steps']
+    pre = [['import', case['imports']]] if case.get('imports') else []
+    return pre + [['eval', e] for e in case['exprs']]
+
+
 def _run_eval_case(case):
     from pypyr.context import Context
     import pypyr.steps.pyimport as pyimport
     heap, cdict = build(case)
     ctx = Context(cdict)
-    import_error = None
-    if case.get('imports'):
-        ctx['pyImport'] = import_source(case['imports'])
-        try:
-            pyimport.run_step(ctx)
-        except Exception as e:   # noqa
-            import_error = e
-        del ctx['pyImport']
     before = snapshot(ctx)
-    imps_before = list(ctx._pystring_globals.keys())
-    srcs = [L.render(e) for e in case['exprs']]
-    raw, plain_now = [], []
-    for src in srcs:
+    import_error = None
+    srcs, raw, plain_now = [], [], []
+    sources_before = []          # per evaluation: the pyimport sources that ran before it, in order
+    ran = []
+    for st in case_steps(case):
+        if st[0] == 'import':
+            ctx['pyImport'] = import_source(st[1])
+            try:
+                pyimport.run_step(ctx)
+            except Exception as e:   # noqa
+                import_error = import_error or e
+            del ctx['pyImport']
+            ran.append(import_source(st[1]))
+            continue
+        src = L.render(st[1])
+        srcs.append(src)
+        sources_before.append(list(ran))
         try:
             if import_error is not None:
                 raise import_error
@@ -193,22 +207,21 @@ def _run_eval_case(case):
     after = snapshot(ctx)
     obs = finish(case, heap, ctx, raw, before, after)
     obs['src'] = srcs
-    obs['imps_keys_before'] = imps_before
     obs['pyimport_error'] = None if import_error is None else f'{type(import_error).__name__}: {import_error}'
-    # second oracle, plain Python: exec the same import source into a fresh namespace, then eval each
-    # expression in a fresh {**that namespace, **dict(context)} — over a second copy of the case's
-    # objects so in-place mutations are replayed, not shared
+    # second oracle, plain Python: exec the import sources that preceded the expression, in order, into a
+    # fresh namespace, then eval the expression in a fresh {**that namespace, **dict(context)} — over a
+    # second copy of the case's objects so in-place mutations are replayed, not shared
     heap2, cdict2 = build(case)
-    imp_ns = {}
     obs['oracle_import_error'] = None
-    if case.get('imports'):
+    pl = []
+    for src, imports in zip(srcs, sources_before):
+        imp_ns = {}
         try:
-            exec(import_source(case['imports']), imp_ns)
+            for isrc in imports:
+                exec(isrc, imp_ns)
         except Exception as e:   # noqa
             obs['oracle_import_error'] = f'{type(e).__name__}: {e}'
         imp_ns.pop('__builtins__', None)
-    pl = []
-    for src in srcs:
         d = dict(imp_ns)
         d.update(cdict2)
         try:
